@@ -193,8 +193,13 @@ func (ic *inferContext) inferRelTypesFromPremise(premises []ast.Term, state *inf
 		} else {
 			alternatives, err = bc.getOrInferRelTypes(atom.Predicate, atom.Args, state.asMap(), typeCtx)
 		}
-		if err != nil {
-			return nil, fmt.Errorf("type mismatch %v : %v ", premise, err)
+		if err != nil || len(alternatives) == 0 {
+			// The atom cannot hold for the types this state assigns to the
+			// variables, so its negation holds for all of them: the state
+			// continues unchanged. (Treating it as infeasible would drop, say,
+			// the /number alternative of X in `e(X), !:match_prefix(X, /a)`,
+			// although numbers pass the negation at run time.)
+			return []*inferState{state.makeNext()}, nil
 		}
 		// For negated premise, there is never a variable bound so we never need to add
 		// a binding. We can refine existing bindings by using negative information.
